@@ -202,6 +202,12 @@ impl Forge {
         Ok(b)
     }
 
+    /// Drop everything learnt except genesis (histories with fresh blocks never come back to old ones).
+    pub fn forget(&mut self) {
+        self.known.retain(|_, b| b.number() == 0);
+        self.processed.clear();
+    }
+
     pub fn learn(&mut self, b: &BlockView) {
         self.known.insert(b.hash(), b.clone());
     }
